@@ -1,25 +1,29 @@
 import Copia.Lemmas.HubRefine2
 /-!
-# C03 — hub commits are a linearizable compare-and-swap: no lost update (Put, interleaved model)
+# C03 — hub commits are a linearizable compare-and-swap: no lost update (interleaved model)
 
-Forward simulation from the interleaved system (`Copia.Model.HubConc`) to the atomic map
-`abs : Path → Option content` with `specPut` (CAS on the content hash; the loser is stored at the
-conflict-copy name): every concrete step is a stutter or exactly one `specPut` of the stepping
-process's own request, whose linearisation point is the rename inside the critical section.
+Forward simulation from the interleaved system (`Copia.Model.HubConc`: N server processes, each
+performing one Put or one Delete as its sequence of file-system calls, any interleaving, any kills)
+to the atomic map `abs : Path → Option content` with `specPut` (CAS on the content hash; the loser is
+stored at the conflict-copy name) and `specDel` (CAS delete): every concrete step is a stutter or
+exactly one `specPut` / `specDel` of the stepping process's own request, whose linearisation point is
+the rename / unlink inside the critical section.
 
-`…_partial`: the transition system contains `Put` only. `Delete` (the same CAS under the same lock,
-no staging) and `Get` (one open handle = an atomic snapshot, after the D7 repair) are covered by the
-schedule-controlled correspondence against real server processes and its linearizability oracle;
-`List` walks the tree without the lock and is not claimed atomic.
+`Get` is not a step kind: it reads one open handle, and `C10.fetch_reads_one_complete_version` shows
+the inode behind a published path is never written again, so a Get is an atomic read of `abs` at its
+open. `List` walks the tree without the lock and is not claimed atomic. Replies and real schedules
+are covered by the schedule-controlled correspondence and its linearizability oracle.
 -/
 namespace Copia.C03
 open Copia.HubConc
 
-/-- C03 (refinement, partial: Put): from any reachable state, every step of any process is either
-invisible to clients or atomically performs that process's Put as specified by `specPut`. -/
-theorem refinement_partial {S : Sys} {init : List Chunk → Prop} {s0 s s' : State}
+/-- C03 (refinement, Put and Delete): from any reachable state, every step of any process is either
+invisible to clients or atomically performs that process's Put as specified by `specPut` or its
+Delete as specified by `specDel`. -/
+theorem refinement {S : Sys} {init : List Chunk → Prop} {s0 s s' : State}
     (wf : WF S) (h0 : Inv S init s0) (l0 : LInv S s0) (r : Reach S s0 s) (st : Step S s s') :
-    abs S s' = abs S s ∨ ∃ i, abs S s' = specPut S (abs S s) (S.req i) :=
+    abs S s' = abs S s ∨ (∃ i, abs S s' = specPut S (abs S s) (S.req i)) ∨
+      (∃ i, abs S s' = specDel S (abs S s) (S.req i)) :=
   step_refines wf (reach_inv wf h0 l0 r).1 (reach_inv wf h0 l0 r).2 st
 
 /-- C03 (no lost update): the atomic Put replaces the live content **only** when the hub's current
@@ -44,8 +48,8 @@ theorem mutual_exclusion {S : Sys} {init : List Chunk → Prop} {s0 s : State}
     (wf : WF S) (h0 : Inv S init s0) (l0 : LInv S s0) (r : Reach S s0 s) (i j : Pid)
     (hi : holds (s.pc i) = true) (hj : holds (s.pc j) = true) : i = j := by
   have li := (reach_inv wf h0 l0 r).2
-  have a := li.holder i ((holds_iff _).mpr hi)
-  have b := li.holder j ((holds_iff _).mpr hj)
+  have a := li.holder i hi
+  have b := li.holder j hj
   rw [a] at b; cases b; rfl
 
 /-- C03 (the compare is against the CURRENT state): the hash a process compares with `expected` is the
@@ -55,5 +59,21 @@ theorem compare_is_current {S : Sys} {init : List Chunk → Prop} {s0 s : State}
     (wf : WF S) (h0 : Inv S init s0) (l0 : LInv S s0) (r : Reach S s0 s) (i : Pid) (fd : Ino) (c : Option Hash)
     (h : s.pc i = .decided fd c) : c = (s.dir (S.req i).dst).map (fun n => S.H (s.ino n)) :=
   (reach_inv wf h0 l0 r).2.cur i fd c h
+
+/-- C03 (delete is a CAS too): the atomic Delete removes the live file **only** when the hub's
+current content hash equals the hash the client said it last saw; otherwise nothing changes. -/
+theorem spec_delete_only_on_match (S : Sys) (m : Path → Option (List Chunk)) (r : Req) :
+    ((m r.dst).map S.H = r.expected → specDel S m r r.dst = none ∧ ∀ q, q ≠ r.dst → specDel S m r q = m q) ∧
+    ((m r.dst).map S.H ≠ r.expected → specDel S m r = m) := by
+  constructor
+  · intro h; unfold specDel; rw [if_pos h]
+    exact ⟨by simp [upd], fun q hq => by simp [upd, hq]⟩
+  · intro h; unfold specDel; rw [if_neg h]
+
+/-- the same for a Delete's compare -/
+theorem delete_compare_is_current {S : Sys} {init : List Chunk → Prop} {s0 s : State}
+    (wf : WF S) (h0 : Inv S init s0) (l0 : LInv S s0) (r : Reach S s0 s) (i : Pid) (c : Option Hash)
+    (h : s.pc i = .ddecided c) : c = (s.dir (S.req i).dst).map (fun n => S.H (s.ino n)) :=
+  (reach_inv wf h0 l0 r).2.dcur i c h
 
 end Copia.C03
